@@ -111,6 +111,22 @@ M: List[Tuple[str, str, str, str, str]] = [
     ('c20-timeout-from-start', 'C20', 'proxy/http/handler.py',
      "        return time.time() - self.last_activity",
      "        return time.time() - (self.last_activity if self.request.is_complete else self.start_time)"),
+    # ---- C08 ---------------------------------------------------------------
+    ('c08-token-prefix', 'C08', 'proxy/http/proxy/auth.py',
+     "                    or parts[1] != self.flags.auth_code:",
+     "                    or not parts[1].startswith(self.flags.auth_code):"),
+    ('c08-scheme-unchecked', 'C08', 'proxy/http/proxy/auth.py',
+     "                    or parts[0].lower() != b'basic' \\\n", ""),
+    ('c08-auth-after-user-plugins', 'C08', 'proxy/common/flag.py',
+     "default_plugins + auth_plugins + requested_plugins", "default_plugins + requested_plugins + auth_plugins"),
+    ('c08-auth-in-handle-client-request', 'C08', 'proxy/http/proxy/auth.py',
+     "    def before_upstream_connection(", "    def handle_client_request("),
+    ('c08-followup-credentials-forwarded', 'C08', 'proxy/http/proxy/server.py',
+     "                    self.pipeline_request.del_headers(\n                        [\n                            httpHeaders.PROXY_AUTHORIZATION,\n                            httpHeaders.PROXY_CONNECTION,\n                        ],\n                    )\n",
+     "                    self.pipeline_request.del_headers(\n                        [\n                            httpHeaders.PROXY_CONNECTION,\n                        ],\n                    )\n"),
+    ('c08-token-case-insensitive', 'C08', 'proxy/http/proxy/auth.py',
+     "                    or parts[1] != self.flags.auth_code:",
+     "                    or parts[1].lower() != self.flags.auth_code.lower():"),
 ]
 
 
